@@ -63,19 +63,25 @@ Definition rep_ok (w : Z) : bool := (w =? 32) || (w =? 64).
 Definition period_ok (n d : Z) : bool :=
   (0 <? n) && (0 <? d) && (Z.gcd n d =? 1) && (n <=? lim64) && (d <=? lim64).
 
+(* the conversion factor (n1/d1)/(n2/d2) in lowest terms *)
+Definition factor_num (n1 d1 n2 d2 : Z) : Z := (n1 * d2) / Z.gcd (n1 * d2) (d1 * n2).
+Definition factor_den (n1 d1 n2 d2 : Z) : Z := (d1 * n2) / Z.gcd (n1 * d2) (d1 * n2).
+
 (* duration_cast from (w1; n1/d1) to (w2; n2/d2) of the count c:
-   the source count fits, the two products of the conversion factor fit intmax_t, the count times
-   the reduced numerator fits intmax_t, and the truncated result fits the target *)
+   the conversion factor in lowest terms is representable (a requirement of the standard on
+   ratio_divide), the source count fits, the count times the factor's numerator fits intmax_t,
+   and the truncated result fits the target *)
 Definition cast_ok (w1 n1 d1 w2 n2 d2 : Z) : Z -> bool :=
-  let a := n1 * d2 in
-  let b := d1 * n2 in
-  let cn := a / Z.gcd a b in
-  let tyok := (a <=? lim64) && (b <=? lim64) in
+  let cn := factor_num n1 d1 n2 d2 in
+  let cd := factor_den n1 d1 n2 d2 in
+  let tyok := (cn <=? lim64) && (cd <=? lim64) in
   fun c => tyok && fits w1 c && fits 64 (c * cn) && fits w2 (cast_spec n1 d1 n2 d2 c).
 
-(* the common type of the two periods exists and both tick factors are computable *)
+(* the common type of the two periods exists and both tick factors are representable *)
 Definition common_ok (n1 d1 n2 d2 : Z) : bool :=
-  (cden d1 d2 <=? lim64) && (n1 * cden d1 d2 <=? lim64) && (n2 * cden d1 d2 <=? lim64).
+  (cden d1 d2 <=? lim64)
+  && (ticks n1 d1 (cnum n1 n2) (cden d1 d2) <=? lim64)
+  && (ticks n2 d2 (cnum n1 n2) (cden d1 d2) <=? lim64).
 
 (* both counts fit their own type and, converted to the common type, fit its representation *)
 Definition both_ok (w1 n1 d1 w2 n2 d2 : Z) : Z -> Z -> bool :=
